@@ -93,5 +93,37 @@ PLANS = {
              '(spec, set of entered states).',
         assumptions=['exception-free behaviours (property domain)', 'events are submitted only between start() and stop()'],
     ),
+    'C04': dict(
+        oracle='C04', level='exploration',
+        profiles=[('queue', 6)], curated=[], configs=ALLCFG,
+        cp=dict(max_ops=25, kinds=['P', 'P', 'P', 'Q', 'Q', 'X', 'N'], scripts={'p': ['f', 'r', 'q', 'Q']},
+                start_scripts={'p': ['f', 'r', 'q', 'Q']}),
+        examples=(300, 2500), floor=(100, 1000),
+        rule='Generated histories in which behaviours at arbitrary callback ordinals (guards, exits, actions, entries, also during '
+             'start()) submit 0-3 further events via process_event/enqueue_event on the machine they received or on the root, '
+             'interleaved with top-level enqueue_event / execute_queued_events / execute_single_queued_event; every occurrence '
+             'carries a unique payload id. Model-free invariants: the submitting call returns at once; each occurrence is dispatched '
+             'in one contiguous block, exactly once or still pending; FIFO per receiving machine; only behaviours of the addressed '
+             'machine (and its descendants) see it; drain / single-step semantics; pending count. Plus per-occurrence agreement with '
+             'the model when the dispatch order agrees. Non-trivial = a step with >= 2 submissions, one of them from a nested level or '
+             'an entry behaviour.',
+        assumptions=['queues of sufficient capacity (circular buffer sized 256)', 'no deferral, no exit points in this profile'],
+    ),
+    'C05': dict(
+        oracle='C05', level='exploration',
+        profiles=[('defer', 6)], curated=[], configs=ALLCFG,
+        cp=dict(max_ops=30, kinds=['P', 'P', 'P', 'P', 'Q', 'X', 'N'], scripts={'p': ['r', 'Q']}),
+        examples=(200, 2000), floor=(60, 600),
+        rule='Generated histories on machines whose root-level states defer 1-2 event types (inside the documented back/back11 '
+             'domain: no row on a deferred event in the deferring state), mixing deferred types with state changes, enqueue_event, '
+             'execute-queued and submissions from behaviours; unique payload ids. Model-free invariants: an occurrence of a type '
+             'deferred by an entered state is neither dispatched nor reported through no_transition; at every quiescent point no '
+             'occurrence is pending unless an entered state defers its type; same-type deferred occurrences re-offered in arrival '
+             'order; nothing dispatched twice; pending count. Non-trivial = an occurrence that was deferred, stayed pending across '
+             '>= 1 other operation and was later re-offered; distinct by (spec, type, configuration at re-offer, ...).',
+        assumptions=['event_queue_before_deferred_queue is not configured', 'deferral declared at root level (back/back11 domain)',
+                     'an event submitted from the entry behaviour of the new state counts as submitted before the configuration change '
+                     '(its order relative to re-offered deferred events is not asserted)'],
+    ),
 }
 NOT_YET = {}
